@@ -255,24 +255,14 @@ distinct peers whatever the caller named. (The number of copies required is `get
 four sites of kad.rs; the translator refuses any other expression, and the differential run names holders — answering
 and silent ones, fewer and more than the quorum — in the `get` lines.) -/
 
-/-- the number of copies required does not depend on the holders the caller names -/
+/-- *Definitional, not a proof obligation*: no function of the model reads `Cfg.expected`, so this holds by `rfl`. The
+evidence that the code's copy count ignores `expected_holders` is the translator (it reads
+`get_quorum_value(&cfg.get_quorum)` at the completion test and refuses anything else) and the differential run, whose
+`get` lines name holders. `ok_has_quorum` quantifies over cfgs with any `expected`. -/
 theorem quorum_ignores_expected_holders (cfg : Cfg) (e : List Nat) :
     quorumOf { cfg with expected := e } = quorumOf cfg ∧
     ∀ c, targetMatch { cfg with expected := e } c = targetMatch cfg c :=
   ⟨rfl, fun _ => rfl⟩
-
-/-- **`ok` needs the full quorum whoever was named**: with named holders `e` an `ok` is still backed by
-`getQuorumValue quorum` pairwise distinct peers (instance of `ok_has_quorum` spelling the field out). -/
-theorem ok_has_quorum_with_named_holders (ops : List Op) (op : Op) (caller : Nat) (c : Content)
-    (h : (caller, Outcome.ok c) ∈ (step (run ops) op).2.deliveries) :
-    ∃ q ∈ (run ops).pending, caller ∈ q.senders ∧
-      ((∃ ps : List Nat, ps.Nodup ∧ getQuorumValue q.cfg.quorum ≤ ps.length ∧
-          ∀ p ∈ ps, (q.qid, p, c) ∈ (step (run ops) op).1.returned) ∨ Merged q op c) := by
-  obtain ⟨q, hq, hc, hb⟩ := ok_has_quorum ops op caller c h
-  refine ⟨q, hq, hc, ?_⟩
-  rcases hb with ⟨ps, h1, h2, h3, _⟩ | hm
-  · exact Or.inl ⟨ps, h1, h2, h3⟩
-  · exact Or.inr hm
 
 -- Majority with three named holders: two distinct peers are not enough, neither at once nor at a timeout
 example : (step (run [.get 0 0 { quorum := .majority, target := none, isReg := false, expected := [1, 2, 3] },
@@ -896,10 +886,6 @@ theorem not_netOkEqualsTarget : ¬ NetOkEqualsTarget := by
   rw [net_split_merge_skips_target_witness.2] at this
   cases this
 
-/-- **Partial (K-d4).** An `Ok c` of `get_record_from_network` is the `Ok c` one attempt put on the caller's channel (the
-caller is that query's first and only caller, so `ok_has_quorum` / `ok_equals_target` apply with its own cfg) — or the
-result of `handle_split_record_error` on the `SplitRecord` of one attempt (`merge_*` theorems; not compared with the
-target). Nothing else is ever returned as `Ok`, whatever the number of retries. -/
 theorem netTryOf_ok {ord : List Content} {o : Outcome} {c : Content} (h : netTryOf ord o = .inl (.ok c)) :
     o = .ok c ∨ ∃ m, o = .split m ∧ mergeSplitMap (hashMapOf ord m) = some c := by
   cases o with
@@ -917,34 +903,47 @@ theorem netTryOf_ok {ord : List Content} {o : Outcome} {c : Content} (h : netTry
 
 theorem netTry_ok {ord : List Content} {cfg : Cfg} {atts : List Attempt} {c : Content}
     (h : netTry ord cfg atts = .inl (.ok c)) :
-    ∃ a, attemptOutcome cfg a = some (.ok c) ∨
-      ∃ m, attemptOutcome cfg a = some (.split m) ∧ mergeSplitMap (hashMapOf ord m) = some c := by
+    attemptOutcome cfg (firstAttempt atts) = some (.ok c) ∨
+      ∃ m, attemptOutcome cfg (firstAttempt atts) = some (.split m) ∧ mergeSplitMap (hashMapOf ord m) = some c := by
   unfold netTry at h
   cases ha : attemptOutcome cfg (firstAttempt atts) with
   | none => rw [ha] at h; simp [netTryOf] at h
   | some o =>
     rw [ha] at h
     rcases netTryOf_ok h with h1 | ⟨m, h1, h2⟩
-    · exact ⟨_, Or.inl (by rw [ha]; exact congrArg some h1)⟩
-    · exact ⟨_, Or.inr ⟨m, by rw [ha]; exact congrArg some h1, h2⟩⟩
+    · exact Or.inl (congrArg some h1)
+    · exact Or.inr ⟨m, congrArg some h1, h2⟩
 
+theorem tail_drop_eq (l : List Attempt) (i : Nat) : l.tail.drop i = l.drop (i + 1) := by
+  cases l <;> simp
+
+/-- **Partial (K-d4).** An `Ok c` of `get_record_from_network` comes from one of the attempts it actually made: for some
+`i ≤ retries`, the `i`-th attempt (the one the holders answer after `i` retries, `firstAttempt (atts.drop i)`) put `Ok c`
+on the caller's channel (the caller is that query's first and only caller, so `ok_has_quorum` / `ok_equals_target` speak
+about such an `Ok`) — or that attempt ended in `SplitRecord` and `c` is what `handle_split_record_error` made of its
+version map (`merge_*` theorems; not compared with the target). Nothing else is ever returned as `Ok`. -/
 theorem net_ok_partial (ord : List Content) (cfg : Cfg) (retries : Nat) :
     ∀ (atts : List Attempt) (c : Content), netLoop ord cfg retries atts = .ok c →
-      ∃ a, attemptOutcome cfg a = some (.ok c) ∨
-        ∃ m, attemptOutcome cfg a = some (.split m) ∧ mergeSplitMap (hashMapOf ord m) = some c := by
+      ∃ i, i ≤ retries ∧
+        (attemptOutcome cfg (firstAttempt (atts.drop i)) = some (.ok c) ∨
+          ∃ m, attemptOutcome cfg (firstAttempt (atts.drop i)) = some (.split m) ∧
+            mergeSplitMap (hashMapOf ord m) = some c) := by
   induction retries with
   | zero =>
     intro atts c h
     simp only [netLoop] at h
     split at h
-    · rename_i r hr; subst h; exact netTry_ok hr
+    · rename_i r hr; subst h; exact ⟨0, Nat.le_refl _, by simpa using netTry_ok hr⟩
     · cases h
   | succ n ih =>
     intro atts c h
     simp only [netLoop] at h
     split at h
-    · rename_i r hr; subst h; exact netTry_ok hr
-    · exact ih _ _ h
+    · rename_i r hr; subst h; exact ⟨0, Nat.zero_le _, by simpa using netTry_ok hr⟩
+    · obtain ⟨i, hi, hc⟩ := ih _ _ h
+      refine ⟨i + 1, Nat.succ_le_succ hi, ?_⟩
+      rw [tail_drop_eq] at hc
+      exact hc
 
 -- the errors are retried while the back-off lasts; a dropped channel is not
 example : netLoop [] { quorum := .n 2, target := none, isReg := false } 1
@@ -953,10 +952,13 @@ example : netLoop [] { quorum := .n 2, target := none, isReg := false } 1
 example : netLoop [] { quorum := .n 2, target := none, isReg := false } 0
     [{ replies := [(1, .hdr .chunk 0)], term := .timeout }] = .err .timeout := by decide
 
-/-- **Observation (K-d6).** `does_target_match` compares whole records: when the record handed over — the completing
-reply's own — carries a publisher or an expiry set by the holder, a value byte-identical to a plain target is answered
-`RecordDoesNotMatch` (versions are keyed by the value hash alone, so such a reply counts towards the quorum). -/
-theorem holder_meta_turns_identical_value_into_mismatch (q : Quorum) (c : Content) :
+/-! **Remark (K-d6, observation; not a proof obligation).** `does_target_match` compares whole records
+(`target_record == record`: value, key, publisher, expires) while versions are keyed by the value hash alone and the
+record handed over is the completing reply's own. `Model.sendCheckedM` writes that comparison down, but it is a
+free-standing definition: `step`, `completedOutcome`, `netTry` and `netLoop` do not carry record metadata, so nothing
+below is a theorem about the modelled handlers. K-d6 is established by the oracle-only component `quorum-net` alone
+(the witness is replayed on the real `get_record_from_network`). -/
+example (q : Quorum) (c : Content) :
     sendCheckedM { quorum := q, target := some c, isReg := false } c true = .mismatch c ∧
     sendCheckedM { quorum := q, target := some c, isReg := false } c false = .ok c := by
   simp [sendCheckedM, sendChecked, targetMatch, targetChecked]
@@ -1601,15 +1603,12 @@ end SafeNet.Props.C05
 #print axioms SafeNet.Props.C05.not_mergeDeterministic_unordered
 #print axioms SafeNet.Props.C05.not_mergeDeterministic_unordered_reg
 #print axioms SafeNet.Props.C05.merge_order_independent_partial
-#print axioms SafeNet.Props.C05.quorum_ignores_expected_holders
-#print axioms SafeNet.Props.C05.ok_has_quorum_with_named_holders
 #print axioms SafeNet.Props.C05.timeout_discards_versions_witness
 #print axioms SafeNet.Props.C05.not_splitReturnsAllOrMerge
 #print axioms SafeNet.Props.C05.split_returns_all_or_merge_partial
 #print axioms SafeNet.Props.C05.net_split_merge_skips_target_witness
 #print axioms SafeNet.Props.C05.not_netOkEqualsTarget
 #print axioms SafeNet.Props.C05.net_ok_partial
-#print axioms SafeNet.Props.C05.holder_meta_turns_identical_value_into_mismatch
 #print axioms SafeNet.Props.C05.merge_only_of_transaction_split
 #print axioms SafeNet.Props.C05.old_merge_drops_quorum_version_witness
 #print axioms SafeNet.Props.C05.not_mergeOnlyOfTransactionSplit_old
